@@ -20,6 +20,7 @@ stage 4  every run is recorded (per attempt the raw bytes the peer received, or 
 from __future__ import annotations
 
 import array
+import errno
 import io
 import json
 import multiprocessing as mp
@@ -36,11 +37,12 @@ HOST = "h"
 REAL_BS = 16384
 METHODS = ["GET", "POST", "DELETE", "PUT", "PATCH", "HEAD", "OPTIONS", "post"]     # = MethodTable of MC_BodyFraming
 ACTIONS = ["ActRecordPosition", "ActTellFails", "ActMarkUnreplayable", "ActNoPosition", "ActRewind", "ActRewindSeekFails",
-           "ActRewindRefused", "ActRewindNoSeek", "ActSend", "ActReturn", "ActRetry", "ActPoolRedirect", "ActManagerRedirect",
+           "ActRewindRefused", "ActRewindNoSeek", "ActSend", "ActSendBreaks", "ActReturn", "ActRetry", "ActPoolRedirect", "ActManagerRedirect",
            "ActSeeOther"]
 NEVER = {"ActRewindNoSeek"}                                  # must stay at zero (an integer position implies seek)
 INV_DESIGN = ["TypeOK", "RulesHold", "FramingTable", "RefusedOnlyWhenUnreplayable", "DesignResends", "PredictIsTheMachine"]
 INV_CODE = ["TypeOK", "RulesHoldExceptKnown", "FramingTable", "RefusedOnlyWhenUnreplayable", "PredictIsTheMachine"]
+RESEND = ["err", "errsend", "503", "307", "308", "303"]
 ALL_KINDS = ["none", "bytes", "str", "buffer", "file", "textfile", "notell", "badseek", "badtell", "list", "strlist", "gen"]
 TEXT_KINDS = {"str", "textfile", "strlist"}
 ONE_SHOT = {"notell", "gen"}
@@ -60,6 +62,7 @@ CONSTANTS
   MCHistSizes = {hsizes}
   MCMethods = {methods}
   MCMaxRe = {maxre}
+  MCOutcomes = {outcomes}
   MCBS = {bs}
   ShardK = {k}
   ShardS = {s}
@@ -218,6 +221,11 @@ def _reply(o):
         for c in ("307", "308", "303"):
             _REPLIES[c] = net.Reply(net.http_response(int(c), b"", headers=[("Location", "/again")], reason="Moved"))
         _REPLIES["err"] = net.Reply(b"", close=True)
+        _REPLIES["errsend"] = _REPLIES["err"]      # the write that should have failed never happened: plain connection error
+        for k in ("ok", "503", "307", "308", "303"):  # the same answers, closing the connection afterwards
+            r = _REPLIES[k]
+            _REPLIES["close:" + k] = net.Reply(r.data.replace(b"\r\n\r\n", b"\r\nConnection: close\r\n\r\n", 1), close=True)
+        _REPLIES["close:err"] = _REPLIES["close:errsend"] = _REPLIES["err"]
     return _REPLIES[o]
 
 
@@ -231,12 +239,22 @@ def execute(sc, mode="sym", variant=None, total=0) -> dict:
     variant = variant or VARIANTS[kind][0]
     hist = list(sc["hist"])
     seen = []                                        # (cid, Request) in arrival order
+    # a history with a write failure gives every attempt its own connection (attempt j = connection j), so that the
+    # failure can be scripted as "the 2nd write on connection j" and a head without body is attributed to its attempt
+    per_conn = "errsend" in hist
+    pre = "close:" if per_conn else ""
 
     def responder(peer, request):
         seen.append((peer.cid, request))
-        if len(seen) > len(hist):
-            return _reply("ok")                      # more attempts than the history foresees: answered, and visible in the trace
-        return _reply(hist[len(seen) - 1])
+        j = peer.cid if per_conn else len(seen)
+        if j > len(hist):
+            return _reply(pre + "ok")                # more attempts than the history foresees: answered, and visible in the trace
+        return _reply(pre + hist[j - 1])
+
+    def scripts(cid, address):
+        if per_conn and cid <= len(hist) and hist[cid - 1] == "errsend":
+            return {"send": {2: OSError(errno.ENETDOWN, "network is down")}}
+        return {}
 
     tmpdir = tempfile.mkdtemp(prefix="c11-", dir=os.environ.get("VERIF_SCRATCH") or None) if variant.startswith("real") else None
     body = None
@@ -250,7 +268,7 @@ def execute(sc, mode="sym", variant=None, total=0) -> dict:
             headers = {"Transfer-Encoding": "chunked"}
         bs = sc["bs"] if mode == "sym" else REAL_BS
         retries = Retry(total=6, status_forcelist=[503], allowed_methods=None, backoff_factor=0)
-        n = net.Net(responder)
+        n = net.Net(responder, scripts=scripts)
         outcome = "resp"
         with warnings.catch_warnings():
             warnings.simplefilter("ignore")
@@ -280,12 +298,23 @@ def execute(sc, mode="sym", variant=None, total=0) -> dict:
                 except Exception as ex:
                     outcome = "raw:" + type(ex).__name__
         atts = []
-        for cid, rq in seen:
-            atts.append(_attempt(rq.raw, rq, n.peers[cid], mode, table, kind in TEXT_KINDS))
-        for cid in sorted(n.peers):                  # bytes that never became a complete message
-            left = bytes(n.peers[cid].inbuf)
-            if left:
-                atts.append(_attempt(left, None, n.peers[cid], mode, table, kind in TEXT_KINDS))
+        textual = kind in TEXT_KINDS
+        broken = {f[0] for f in n.faults if f[1] == "send"}          # connections on which the scripted write failure fired
+        if per_conn:
+            for cid in sorted(n.peers):
+                for c2, rq in seen:
+                    if c2 == cid:
+                        atts.append(_attempt(rq.raw, rq, n.peers[cid], mode, table, textual))
+                left = bytes(n.peers[cid].inbuf)
+                if left:                             # head without (whole) body: incomplete iff the write failure fired here
+                    atts.append(_attempt(left, None, n.peers[cid], mode, table, textual, complete=cid not in broken))
+        else:
+            for cid, rq in seen:
+                atts.append(_attempt(rq.raw, rq, n.peers[cid], mode, table, textual))
+            for cid in sorted(n.peers):              # bytes that never became a complete message
+                left = bytes(n.peers[cid].inbuf)
+                if left:
+                    atts.append(_attempt(left, None, n.peers[cid], mode, table, textual))
         got = sum(len(n.peers[c].received) for c in n.peers)
         if got != sum(n.sent_bytes.values()):
             raise tlc.MachineryError(f"peer saw {got} bytes but the client sockets sent {sum(n.sent_bytes.values())}")
@@ -302,12 +331,15 @@ def execute(sc, mode="sym", variant=None, total=0) -> dict:
     return {"sc": sc, "mode": mode, "variant": variant, "total": total, "atts": atts, "outcome": outcome}
 
 
-def _attempt(raw, rq, peer, mode, table, textual):
+def _attempt(raw, rq, peer, mode, table, textual, complete=True):
     if mode == "sym":
-        return {"complete": True, "raw": tokenise(raw)}
-    if rq is None:          # leftover bytes in dig mode: an incomplete / unparseable message
-        return {"complete": True, "ok": False, "why": "LeftoverBytes", "method": [], "nfr": 0, "mode": "none", "declared": 0,
-                "payload": ["?leftover", str(len(raw))], "clean": False}
+        return {"complete": complete, "raw": tokenise(raw)}
+    if rq is None:          # leftover bytes in dig mode: a message the peer's parser could not finish
+        names = [ln.split(b":")[0].strip().lower() for ln in raw.split(b"\r\n\r\n")[0].split(b"\r\n")[1:]]
+        te, cl = names.count(b"transfer-encoding"), names.count(b"content-length")
+        return {"complete": complete, "ok": False, "why": "LeftoverBytes", "method": [], "nfr": te + cl,
+                "mode": "both" if te and cl else "chunked" if te else "cl" if cl else "none", "declared": 0,
+                "payload": [] if not complete else ["?leftover", str(len(raw))], "clean": False}
     names = [k.lower() for k, _ in rq.headers]
     cl = [v for k, v in rq.headers if k.lower() == "content-length"]
     return {"complete": True, "ok": peer.parse_error is None, "why": peer.parse_error or "", "method": syms(rq.method),
@@ -354,7 +386,7 @@ def kind_class(kind):
 def facts_of(sc, at, clause, cls):
     before = [o for o in sc["hist"][: max(at - 1, 0)]]
     return {"clause": clause, "class": cls, "kind": sc["kind"], "kind_class": kind_class(sc["kind"]), "client": sc["client"],
-            "resent_after": sorted(set(o for o in before if o in ("err", "503", "307", "308"))),
+            "resent_after": sorted(set(o for o in before if o in ("err", "errsend", "503", "307", "308"))),
             "manager_redirect_before": sc["client"] == "mgr" and any(o in ("307", "308") for o in before)}
 
 
@@ -376,6 +408,8 @@ def assess(items, origin):
     res = {"n": len(items), "bad": [], "drift": [], "known": [], "tally": {}, "nontrivial": set(), "samples": [], "attempts": 0}
     for (sc, mode, variant, total, expected), t, (at, clause, cls, which, exact) in zip(items, traces, verdicts):
         res["attempts"] += len(t["atts"])
+        if any(not a["complete"] for a in t["atts"]):
+            res["tally"]["incomplete-attempt"] = res["tally"].get("incomplete-attempt", 0) + 1
         for k in (f"kind:{sc['kind']}", f"variant:{variant}", f"mode:{mode}", f"client:{sc['client']}", f"which:{which}", f"bytes:{exact}",
                   f"outcome:{t['outcome'].split(':')[0]}", f"clause:{clause}", f"hist:{'>'.join(sc['hist'])}",
                   f"first:{sc['caller']}/{'chunked' if sc['chunked'] else 'plain'}/{'body' if sc['kind'] != 'none' else 'nobody'}"):
@@ -459,7 +493,9 @@ def plan_realisations(sc, idx, quick, rng):
         out.append(("sym", vs[(idx + 1) % len(vs)], 0))
     n = len(sc["content"]) - sc["start"]
     # bodies of realistic size around the real blocksize; multi-attempt histories only with a few sizes
-    if kind != "none" and n > 0 and (not quick or idx % 4 == 0):
+    # (a read-only stream that broke in the middle of a write is left at a blocksize boundary, not at a unit boundary:
+    #  what is left cannot be expressed in units, so that combination is judged on raw bytes only)
+    if kind != "none" and n > 0 and (not quick or idx % 4 == 0) and not (kind == "notell" and "errsend" in sc["hist"]):
         sizes = [1, REAL_BS - 1, REAL_BS, REAL_BS + 1, 3 * REAL_BS + 5]
         pick = sizes if (not quick and len(sc["hist"]) == 1) else [sizes[(idx // 4 + rng.randrange(5)) % 5]]
         for tot in pick:
@@ -475,7 +511,7 @@ def _params(quick):
 
 def _cfg(p, defects, checks, k=1, s=0, emit=False):
     return MC_CFG.format(defects=tla_set(defects), kinds=tla_set(p["kinds"]), sizes=tla_set(p["sizes"]), hsizes=tla_set(p["hsizes"]),
-                         methods=tla_set(p["methods"]), maxre=p["maxre"], bs=p["bs"], k=k, s=s, emit="TRUE" if emit else "FALSE",
+                         methods=tla_set(p["methods"]), maxre=p["maxre"], outcomes=tla_set(p.get("outcomes", RESEND)), bs=p["bs"], k=k, s=s, emit="TRUE" if emit else "FALSE",
                          checks=checks)
 
 
@@ -567,7 +603,7 @@ def run(rep):
     need = [f"kind:{k}" for k in ALL_KINDS] + [f"variant:{v}" for vs in VARIANTS.values() for v in vs] + ["mode:sym", "mode:dig", "client:pool",
             "client:mgr", "outcome:resp", "outcome:UnrewindableBodyError", "first:none/plain/nobody", "first:none/chunked/nobody",
             "first:none/plain/body", "first:none/chunked/body", "first:cl/plain/body", "first:te/plain/body"]
-    need += [f"hist:{o}>ok" for o in ("err", "503", "307", "308", "303")] + ["hist:ok"]
+    need += [f"hist:{o}>ok" for o in RESEND] + ["hist:ok", "incomplete-attempt"]
     for nd in need:
         if not tally.get(nd):
             raise tlc.MachineryError(f"vacuous coverage: no execution with {nd} (tally {tally})")
